@@ -18,11 +18,14 @@ var registry = map[string]CheckFunc{}
 func register(id string, f CheckFunc) {
 	registry[id] = func(p *load.Program, r *kit.Report) {
 		f(p, r)
-		if !ownsErrDisposition(id) {
-			return
+		if ownsErrDisposition(id) {
+			r.Rule("ERR-DISPOSITION", "every call whose error the reference tree returns from all of its call sites in a function (errdisp.json, frozen with anchors.json) still has its error returned there — on the current tree after renames were followed and new helpers expanded; sites = fallible calls in the static call trees of this property's entry points", 1)
+			checkErrDisposition(p, r, "ERR-DISPOSITION")
 		}
-		r.Rule("ERR-DISPOSITION", "every call whose error the reference tree returns from all of its call sites in a function (errdisp.json, frozen with anchors.json) still has its error returned there — on the current tree after renames were followed and new helpers expanded; sites = fallible calls in the static call trees of this property's entry points", 1)
-		checkErrDisposition(p, r, "ERR-DISPOSITION")
+		if ownsLockCover(id) {
+			r.Rule("LOCK-COVER", "every access to a mutable field of this property's structs holds the locks the reference tree holds at every access of that field in that function (lockcover.json, frozen with anchors.json): reads in any mode, writes exclusively; objects under construction excepted", 1)
+			checkLockCover(p, r, "LOCK-COVER")
+		}
 	}
 }
 
